@@ -47,7 +47,8 @@ class BasePickerModel(ABC):
             **params,
             **kwargs,
             # dask parameters
-            depth=[min(s, d) for s, d in zip(image.shape, depth)],
+            # NOTE: a tuple means per-axis depths (a list would mean per-array depths).
+            depth=tuple(int(min(s, d)) for s, d in zip(image.shape, depth)),
             trim=False,
             boundary=boundary,
             dtype=object,
